@@ -1,7 +1,11 @@
 ------------------------------- MODULE MCKvass -------------------------------
 EXTENDS Kvass, TLC
-Opts == [maxHead |-> 10, maxProc |-> 20, minShard |-> 1, maxShard |-> 3, maxIdle |-> 1, noAlleviate |-> FALSE]
-SizeSet == {[series |-> 4, total |-> 5], [series |-> 7, total |-> 9]}
+Opts == [maxHead |-> 10, maxProc |-> 20, minShard |-> 2, maxShard |-> 3, maxIdle |-> 1, noAlleviate |-> FALSE]
+\* one small and one large size: two large targets overload a shard (relief, transfer), min-shard 2 gives every
+\* run a second shard (duplicates after an unreachable shard, orphaned transfers)
+SizeSet == {[series |-> 3, total |-> 3], [series |-> 6, total |-> 7]}
+None == {{}}
+All == {Targets}
 Small == clock <= 2
 TypeK == nsh \in 0..MaxN
 =============================================================================
